@@ -240,3 +240,126 @@ fn skeleton_single_file() {
 fn c17_single_file_skeleton_fields() {
     skeleton_single_file();
 }
+
+// ---------------------------------------------------------------------------------------------
+// Field extraction from an already decoded dictionary (the decoder itself is out of reach):
+// dictionaries are built directly, values are symbolic.
+
+fn key(s: &[u8]) -> Vec<u8> {
+    s.to_vec()
+}
+
+fn torrent_dict(info: HashMap<Vec<u8>, BValue>) -> HashMap<Vec<u8>, BValue> {
+    let mut top: HashMap<Vec<u8>, BValue> = HashMap::new();
+    top.insert(key(b"info"), BValue::Dict(info));
+    top
+}
+
+// @prop C17
+// @fn Metainfo::find_length, Metainfo::find_piece_length
+// @bound every i64 value of "length" and of "piece length" in a hand-built info dictionary; "length" present (any value) or absent
+// @desc length / piece length are read exactly as the dictionary says: every non-negative integer (zero included) is returned unchanged, negative ones are refused, absent keys are reported as absent
+#[kani::proof]
+#[kani::unwind(4)]
+fn c17_numeric_fields_read_exactly() {
+    // (map shapes are concrete: a symbolic number of entries turns every slot access of the
+    //  HashMap model into a symbolic-index write over boxed values)
+    let len: i64 = kani::any();
+    let pl: i64 = kani::any();
+    let mut info: HashMap<Vec<u8>, BValue> = HashMap::new();
+    info.insert(key(b"length"), BValue::Int(len));
+    info.insert(key(b"piece length"), BValue::Int(pl));
+    let top = torrent_dict(info);
+    let got_len = Metainfo::find_length(&top);
+    if len >= 0 {
+        assert!(got_len == Some(len as u64), "a non-negative length (zero included) is returned as is");
+    } else {
+        assert!(got_len.is_none(), "a negative length is reported as absent");
+    }
+    match Metainfo::find_piece_length(&top) {
+        Ok(v) => assert!(pl >= 0 && v == pl as u64, "piece length returned as is"),
+        Err(_) => assert!(pl < 0, "only a negative piece length is refused"),
+    }
+    kani::cover!(len == 0, "zero length");
+    kani::cover!(len == i64::MAX, "huge length");
+    std::mem::forget(top);
+    // key absent
+    let mut info2: HashMap<Vec<u8>, BValue> = HashMap::new();
+    info2.insert(key(b"piece length"), BValue::Int(1));
+    let top2 = torrent_dict(info2);
+    assert!(Metainfo::find_length(&top2).is_none(), "absent length is reported as absent");
+    std::mem::forget(top2);
+}
+
+fn pieces_case(l: usize) {
+    let bytes: [u8; 41] = kani::any();
+    let mut info: HashMap<Vec<u8>, BValue> = HashMap::new();
+    info.insert(key(b"pieces"), BValue::ByteStr(bytes[..l].to_vec()));
+    let top = torrent_dict(info);
+    let res = Metainfo::find_pieces(&top);
+    match &res {
+        Ok(v) => {
+            assert!(l % 20 == 0 && v.len() == l / 20, "one hash per 20 bytes");
+            let k: usize = kani::any();
+            if k < l {
+                assert!(v[k / 20][k % 20] == bytes[k], "hashes are the 20-byte chunks in order");
+            }
+        }
+        Err(_) => assert!(l % 20 != 0, "only a length that is not a multiple of 20 is refused"),
+    }
+    std::mem::forget(res);
+    std::mem::forget(top);
+}
+
+// @prop C17
+// @fn Metainfo::find_pieces
+// @bound "pieces" strings of 0, 19, 20, 21 and 40 symbolic bytes
+// @desc the ordered piece hashes are exactly the 20-byte chunks of the pieces string; lengths that are not a multiple of 20 are refused
+#[kani::proof]
+#[kani::unwind(6)]
+fn c17_piece_hashes_are_the_chunks_in_order() {
+    pieces_case(0);
+    pieces_case(19);
+    pieces_case(20);
+    pieces_case(21);
+    pieces_case(40);
+    kani::cover!(true, "reached");
+}
+
+// @prop C17
+// @fn Metainfo::find_files, Metainfo::file_list
+// @bound a "files" list of five entries: two dictionaries with any non-negative i64 length and any 1-byte ASCII path, around three malformed ones (a non-dictionary, a negative length, a non-UTF-8 path)
+// @desc the file list keeps the listed order, keeps every entry with a non-negative length and a UTF-8 path (zero lengths included), and skips only malformed entries
+#[kani::proof]
+#[kani::unwind(8)]
+fn c17_file_list_order_and_skipping() {
+    // well-formedness of each entry is concrete (structurally non-negative lengths, ASCII
+    // paths), the values are symbolic; malformed entries are concrete
+    let l0: i64 = (kani::any::<u64>() >> 1) as i64;
+    let l1: i64 = (kani::any::<u64>() >> 1) as i64;
+    let p0: u8 = kani::any::<u8>() & 0x7f;
+    let p1: u8 = kani::any::<u8>() & 0x7f;
+    let mut f0: HashMap<Vec<u8>, BValue> = HashMap::new();
+    f0.insert(key(b"length"), BValue::Int(l0));
+    f0.insert(key(b"path"), BValue::ByteStr(vec![p0]));
+    let mut neg: HashMap<Vec<u8>, BValue> = HashMap::new();
+    neg.insert(key(b"length"), BValue::Int(-1));
+    neg.insert(key(b"path"), BValue::ByteStr(vec![b'n']));
+    let mut bin: HashMap<Vec<u8>, BValue> = HashMap::new();
+    bin.insert(key(b"length"), BValue::Int(5));
+    bin.insert(key(b"path"), BValue::ByteStr(vec![0xff]));
+    let mut f1: HashMap<Vec<u8>, BValue> = HashMap::new();
+    f1.insert(key(b"length"), BValue::Int(l1));
+    f1.insert(key(b"path"), BValue::ByteStr(vec![p1]));
+    let list = vec![BValue::Dict(f0), BValue::Int(7), BValue::Dict(neg), BValue::Dict(bin), BValue::Dict(f1)];
+    let mut info: HashMap<Vec<u8>, BValue> = HashMap::new();
+    info.insert(key(b"files"), BValue::List(list));
+    let top = torrent_dict(info);
+    let files = Metainfo::find_files(&top).expect("a files list is present");
+    assert!(files.len() == 2, "exactly the well-formed entries are kept (non-dictionary, negative length and non-UTF-8 path skipped)");
+    assert!(files[0].length == l0 as u64 && files[0].path.as_bytes()[0] == p0, "first listed entry first, length and path as listed");
+    assert!(files[1].length == l1 as u64 && files[1].path.as_bytes()[0] == p1, "last listed entry second");
+    kani::cover!(l0 == 0 && l1 == i64::MAX, "zero-length and huge files kept");
+    std::mem::forget(files);
+    std::mem::forget(top);
+}
